@@ -153,8 +153,52 @@ def good_example(spec, f):
     return ""
 
 
+PLUGIN_SOURCE = """# written by the harness: a plugin folder as interface.import_plugins() scans it
+from cutplace import checks, errors, fields
+import vcommon
+
+
+class %(name)sFieldFormat(fields.AbstractFieldFormat):
+    def __init__(self, field_name, is_allowed_to_be_empty, length, rule, data_format):
+        super().__init__(field_name, is_allowed_to_be_empty, length, rule, data_format, empty_value="")
+        self.accepted = rule.split("|") if rule else []
+
+    validated_value = vcommon.RecFieldFormat.validated_value
+
+
+class %(name)sCheck(checks.AbstractCheck):
+    def __init__(self, description, rule, available_field_names, location=None):
+        super().__init__(description, rule, available_field_names, location)
+        parts = rule.split()
+        self.kind = parts[0]
+        self.veto_field = parts[1] if self.kind == "veto" else None
+        self.trigger = parts[2] if self.kind == "veto" else None
+
+    reset = vcommon.RecCheck.reset
+    check_row = vcommon.RecCheck.check_row
+    check_at_end = vcommon.RecCheck.check_at_end
+    cleanup = vcommon.RecCheck.cleanup
+"""
+
+
+def plugin_classes(name, folder):
+    """the same two classes, this time supplied by a plugin folder: a module written there and imported by cutplace"""
+    import os
+    if name not in _LATE:
+        os.makedirs(folder, exist_ok=True)
+        for old in os.listdir(folder):
+            if old.endswith(".py"):
+                os.remove(os.path.join(folder, old))
+        with open(os.path.join(folder, "plugin_%s.py" % name.lower()), "w") as fh:
+            fh.write(PLUGIN_SOURCE % {"name": name})
+        interface.import_plugins(folder)
+        _LATE[name] = True
+
+
 def build_cid(spec):
-    if spec.get("rec_name"):
+    if spec.get("rec_name") and spec.get("plugin_folder"):
+        plugin_classes(spec["rec_name"], spec["plugin_folder"])
+    elif spec.get("rec_name"):
         late_classes(spec["rec_name"])
     cid = interface.Cid()
     cid.read("<spec>", cid_rows(spec))
